@@ -379,7 +379,7 @@ def c10_check(pid, tier, seed, replay=None):
         cleanup(wd)
 
 
-def composed_check(fam_pid, parts, assumptions, world=False):
+def composed_check(fam_pid, parts, assumptions, world=False, extra=()):
     """OP-family histories (rules with the property's prefix) + decision tables."""
     def chk(pid, tier, seed, replay=None):
         import opfamily
@@ -404,7 +404,16 @@ def composed_check(fam_pid, parts, assumptions, world=False):
             new, known = report(pid, viols, lambda v: v["signature"],
                                 lambda v: dict(rule=v["rule"], module=v["module"], id=v["id"], case=v["case"], observed=v["observed"]),
                                 wd, [], seed, tier, extra_save=write_cases)
-            merge_evidence(pid, tier, seed, t0, part["coverage"], tbs, part["new"] + new, part["known"] + known, part["assumptions"] + assumptions)
+            more = list(assumptions)
+            for name, fn in extra:      # further pipelines (other spec families) judged on this property's rule prefix
+                x = fn(pid, tier, seed, wd)
+                new, known = new + x["new"], known + x["known"]
+                part["coverage"][name] = dict(design=x["coverage"].get("design"), events=x["coverage"].get("evaluations"),
+                                              traces_validated_against_impl=x["coverage"].get("traces_validated_against_impl"))
+                part["coverage"]["evaluations"] += x["coverage"].get("evaluations", 0)
+                part["coverage"]["traces_validated_against_impl"] += x["coverage"].get("traces_validated_against_impl", 0)
+                more += x["assumptions"][:1]
+            merge_evidence(pid, tier, seed, t0, part["coverage"], tbs, part["new"] + new, part["known"] + known, part["assumptions"] + more)
             return 1 if (part["new"] + new) else 0
         finally:
             cleanup(wd)
@@ -562,11 +571,13 @@ CHECKS = {
         [dict(module="AuthResponse", sub="tbl-authresp", prefixes=("C11.",), sig=c11_sig, need=c11_need, label="authorization response table",
               required=["P:response:query", "P:response:fragment", "P:response:form", "L:response:query", "L:response:fragment", "L:response:form",
                         "L:refused:none", "kind:code", "kind:tokens", "kind:idtoken", "kind:errCallback", "kind:errAuthorize"])],
-        ["character fidelity is OBSERVED, not model-checked: the monitor judges per-parameter 'intact' flags computed by the harness after decoding the "
+        ["the receiving end (spec/RP.tla, rules C11.rp.*): callbacks delivered to rp.CodeExchangeHandler by GET and by POST (form_post) are exchanged and hand the application its state",
+         "character fidelity is OBSERVED, not model-checked: the monitor judges per-parameter 'intact' flags computed by the harness after decoding the "
          "Location query / raw fragment with url.ParseQuery (as a user agent's form decoding) or the HTML page with golang.org/x/net/html",
          "strings are one representative character per class (delimiters, escapes, markup, non-ASCII, control, a literal %41), length <= 2 (quick: all length-1 "
          "strings and selected pairs); universality over all byte strings is not claimed",
-         "redirect URI shapes: plain, with query, query containing '+' and %2B, custom scheme, trailing '?', query containing %26 %3D and UTF-8"]),
+         "redirect URI shapes: plain, with query, query containing '+' and %2B, custom scheme, trailing '?', query containing %26 %3D and UTF-8"],
+        extra=[("relying_party_callbacks", lambda pid, tier, seed, wd: __import__("misc").rp_part(pid, tier, seed, wd, ("C11.",)))]),
     "C14": simple_table_check(
         [dict(module="Assertion", sub="tbl-assertion", prefixes=("C14.",), sig=c14a_sig, need=c14a_need, label="JWT assertion table",
               required=["verify:accept", "verify:reject", "bearerP:accept", "bearerL:accept", "codeP:accept", "codeL:accept", "codeP:reject", "codeL:reject"]),
